@@ -124,17 +124,20 @@ Proof.
 Qed.
 
 (* --- well-formed histories --- *)
-Definition ev_ok (s : st) (name : string) (idx : N) (state : ifstate) : Prop :=
+(* an interface event is acceptable: the ifindex is not 0 and not held by ANOTHER name; the same name may show up under
+   a new ifindex without its deletion having been reported only on code with fix C (c_fixC), where the state recorded
+   for the old ifindex is forgotten too (on the pinned code that breaks the view: c17_refresh_refuted_C) *)
+Definition ev_ok (cfg : config) (s : st) (name : string) (idx : N) (state : ifstate) : Prop :=
   state = IfNP \/
   (idx <> 0 /\ (forall n, n <> name -> lookup String.eqb (s_n2i s) n <> Some idx) /\
-   (lookup String.eqb (s_n2i s) name = None \/ lookup String.eqb (s_n2i s) name = Some idx)).
+   (lookup String.eqb (s_n2i s) name = None \/ lookup String.eqb (s_n2i s) name = Some idx \/ c_fixC cfg = true)).
 
 (* `ok` = it is known that a full resync is pending or that the tracker and the interface view are in sync *)
 Definition op_ok (cfg : config) (ok : bool) (s : st) (e : env) (o : op) : Prop :=
   match o with
   | OSetRoutes c n ts => forall k t, In (k, t) ts -> target_ok cfg n t
   | ORouteUpdate c n k t => target_ok cfg n t
-  | OIface n idx state => ev_ok s n idx state
+  | OIface n idx state => ev_ok cfg s n idx state
   | ESetLink _ _ | EDelLink _ => wfl (e_links (env_step o e))
   | OApply p => ok = true /\ plan_honest p = true
   | EFlush _ | EAddRoute _ _ | EDelRoute _ => False
@@ -195,7 +198,12 @@ Proof.
   - (* interface event *)
     assert (KI cfg (on_iface cfg (e_now e) name idx state s)) as K'.
     { destruct OK as [->|[NZ [W1 W2]]]; [apply np_KI; split; auto|].
-      destruct state; [apply ud_KI; auto; try discriminate; split; auto | apply ud_KI; auto; try discriminate; split; auto | apply np_KI; split; auto]. }
+      assert (forall st', st' <> IfNP -> KI cfg (on_iface cfg (e_now e) name idx st' s)) as UD.
+      { intros st' NS. destruct W2 as [W2|[W2|W2]]; [apply ud_KI; auto; split; auto|apply ud_KI; auto; split; auto|].
+        destruct (lookup String.eqb (s_n2i s) name) as [old|] eqn:EO; [|apply ud_KI; auto; split; auto].
+        destruct (N.eq_dec old idx) as [->|NE]; [apply ud_KI; auto; split; auto|].
+        eapply renum_KI; eauto. split; auto. }
+      destruct state; [apply UD; discriminate | apply UD; discriminate | apply np_KI; split; auto]. }
     split.
     + constructor; auto. unfold pol_ok. rewrite on_iface_routes. exact PO.
     + intros X. apply andb_true_iff in X. destruct X as [_ X]. left. rewrite on_iface_full. exact X.
